@@ -652,7 +652,7 @@ pub fn scalar_classes<G: GroupApi>(rng: &mut Rng, count: usize) -> Vec<Vec<u8>> 
                 while i * 5 < bits { x += BigUint::from(*rng.pick(&[0u32, 1, 15, 16, 17, 31])) << (i * 5); i += 1; }
             }
             1 => { x = x >> rng.below(bits); }
-            2 => { x = &n - (x >> (rng.below(bits - 1) + 1)) - 1u32; }
+            2 => { x = &n - ((x >> (rng.below(bits - 1) + 1)) % &n) - 1u32; }
             _ => {}
         }
         v.push(x % &n);
